@@ -69,6 +69,40 @@ class StepBudgetExceeded(Exception):
     pass
 
 
+# ---------------------------------------------------------------------------------------
+# wall-clock horizon: a last resort against library code that never returns (most loops are caught by the
+# deterministic line budget of with_step_budget; this one covers the calls a check makes without it).  The
+# horizon is far above what any case needs (cases take milliseconds to a few seconds), so a correct tree does not
+# reach it even on a heavily loaded machine; the timer keeps firing once a second after it expired, so that an
+# "except Exception: continue" inside a spinning loop cannot swallow it for good.
+# ---------------------------------------------------------------------------------------
+import signal as _signal
+
+CASE_HORIZON_SECONDS = float(os.environ.get("VERIF_CASE_HORIZON", "300"))
+_WALL_HITS = [0]
+
+
+class _Watchdog(object):
+    def __enter__(self):
+        self.armed = False
+        try:
+            self.old = _signal.signal(_signal.SIGALRM, self._fire)
+            _signal.setitimer(_signal.ITIMER_REAL, CASE_HORIZON_SECONDS, 1.0)
+            self.armed = True
+        except (ValueError, AttributeError, OSError):            # not the main thread / no SIGALRM: no watchdog
+            pass
+        return self
+
+    def _fire(self, signum, frame):
+        raise StepBudgetExceeded("no result after %.0f s of wall-clock time" % CASE_HORIZON_SECONDS)
+
+    def __exit__(self, *exc):
+        if self.armed:
+            _signal.setitimer(_signal.ITIMER_REAL, 0.0)
+            _signal.signal(_signal.SIGALRM, self.old)
+        return False
+
+
 def jsonable(x):
     """Canonical JSON-able rendering of arbitrary observed values (for records / comparison)."""
     if x is None or isinstance(x, (bool, int, str)):
@@ -222,11 +256,19 @@ def run_case(runner, clause, case, stats=None):
     st.current_case = case
     st.executions += 1
     st.clause_cases[clause] += 1
+    if _WALL_HITS[0] >= 3:
+        # this worker already sat out the wall-clock horizon three times (each reported): the remaining cases of its
+        # share are not run -- the verdict is a violation already, and waiting hours for more of them helps nobody
+        st.count("cases_not_run_after_three_wall_clock_timeouts")
+        return
     try:
-        runner(case)
+        with _Watchdog():
+            runner(case)
     except HarnessError:
         raise
     except StepBudgetExceeded as e:
+        if "wall-clock" in str(e):
+            _WALL_HITS[0] += 1
         st.problem("runner", "terminates within the step horizon", "no result within horizon: %s" % e)
     except Exception as e:                                     # noqa
         tb = traceback.extract_tb(sys.exc_info()[2])
@@ -292,7 +334,8 @@ def _worker_bfs(chunk):
             before = S.problem_counts[clause]
             key = None
             try:
-                key = bfs_execute(spec, list(hist) + [act], check_prefix=False)
+                with _Watchdog():
+                    key = bfs_execute(spec, list(hist) + [act], check_prefix=False)
             except HarnessError:
                 raise
             except StepBudgetExceeded as e:
